@@ -432,8 +432,9 @@ def materialise(ftype, raw):
 class Builder:
     """Builds descriptors and records with the real library from generator recipes."""
 
-    def __init__(self, rng, thorough=False, max_depth=2):
+    def __init__(self, rng, thorough=False, max_depth=2, types=None):
         self.rng = rng
+        self.types = types
         self.thorough = thorough
         self.max_depth = max_depth
         self.counter = 0
@@ -447,7 +448,7 @@ class Builder:
         from flow.record import RecordDescriptor
 
         rng = self.rng
-        pool = list(types or ALL_FIELD_TYPES)
+        pool = list(types or self.types or ALL_FIELD_TYPES)
         if depth >= self.max_depth:
             pool = [t for t in pool if not t.startswith("record")]
         n = nfields if nfields is not None else rng.choice([0, 1, 2, 3, 4, 6, 9, 12])
